@@ -30,6 +30,10 @@ Fact F_py_swallow : pyproject_error_swallowed = false.
 Proof. reflexivity. Qed.
 Fact F_retry : retry_exceptions = ["TypeError"].
 Proof. reflexivity. Qed.
+Fact F_global_checks : global_config_missing_exits = true /\ global_config_invalid_exits = true.
+Proof. split; reflexivity. Qed.
+Fact F_markers : root_markers = [".git"; ".thailint.yaml"; "pyproject.toml"].
+Proof. reflexivity. Qed.
 Fact F_norm : norm_from = "-" /\ norm_to = "_".
 Proof. split; reflexivity. Qed.
 Fact F_errors : value_error_reraised = true /\ error_exit_code = 2 /\ exit_with_violations = 1 /\ exit_clean = 0.
@@ -108,6 +112,7 @@ Record relevant_off (q : quirks) (c : case) : Prop := {
   r_ign_dash : has q "repo_ignore_not_loaded[--config]" = false \/ p_dash (c_proj c) = None;
   r_global : has q "global_config_option_ignored" = false \/ p_dash (c_proj c) = None;
   r_dry : has q "dry_config_option_merges_section_only" = false \/ p_dash (c_proj c) = None;
+  r_root : has q "thailint_json_is_not_a_root_marker" = false \/ p_subdir (c_proj c) = false;
   r_types : has q "wrong_type_swallowed" = false
             \/ (forall k raw, spec_selected c = LDoc k raw ->
                  no_type_error (doc_opts (c_unit c)) (doc_guards (c_unit c)) (spec_res c (section_of (c_unit c) raw)));
@@ -138,7 +143,8 @@ Proof.
   assert (P : forall f, In f ["repo_ignore_not_loaded[pyproject]"; "repo_ignore_not_loaded[--config]";
       "global_config_option_ignored"; "dry_config_option_merges_section_only";
       "pyproject_unparsable_swallowed"; "wrong_type_swallowed";
-      "language_block_error_retried_without_language"; "invalid_top_level_value_shadowed_by_language_block"] -> has q f = false).
+      "language_block_error_retried_without_language"; "invalid_top_level_value_shadowed_by_language_block";
+      "thailint_json_is_not_a_root_marker"] -> has q f = false).
   { intros f Hf. apply H. unfold all_flags. rewrite !in_app_iff. do 5 right. exact Hf. }
   constructor; try (apply H; apply in_flags_unit; [cbn [In]; tauto|exact Gu]);
     try (left; apply P; cbn [In]; tauto).
@@ -152,7 +158,7 @@ Qed.
 (* ------------------------------------------------------------------ carrier selection *)
 Lemma discovered_spec q p : discovered q p = spec_discovered p.
 Proof.
-  destruct p as [y j py d].
+  destruct p as [y j py d ig sd].
   unfold discovered, spec_discovered, swallow_py. rewrite F_py_swallow.
   destruct y, j, py; try reflexivity.
   cbv beta iota delta [discovery_order pyproject_name first_existing file_of kind_of_name p_yaml p_json p_pyproject String.eqb Ascii.eqb Bool.eqb].
@@ -167,12 +173,18 @@ Proof.
   destruct H as [H|H]; [|discriminate]. rewrite H. now destruct (d_pos d).
 Qed.
 
+Lemma eff_proj_spec q c : relevant_off q c -> eff_proj q c = c_proj c.
+Proof.
+  intros R. unfold eff_proj, root_found. destruct (r_root q c R) as [E|E]; rewrite E; [reflexivity|].
+  cbn [negb orb]. now destruct (has q _).
+Qed.
+
 Lemma selected_spec q c : relevant_off q c -> selected q c = spec_selected c.
 Proof.
-  intros R. unfold selected, spec_selected, spec_dash.
-  rewrite (discovered_spec q _), (dash_active_spec q c (r_global q c R)).
-  destruct (spec_discovered (c_proj c)); [reflexivity|].
-  destruct (p_dash (c_proj c)) as [d|]; [|reflexivity].
+  intros R. unfold selected, spec_selected, spec_dash, ignored_dash_error.
+  rewrite (eff_proj_spec q c R), (discovered_spec q _), (dash_active_spec q c (r_global q c R)).
+  destruct (p_dash (c_proj c)) as [d|]; [|now destruct (spec_discovered (c_proj c))].
+  cbn iota. destruct (spec_discovered (c_proj c)); [reflexivity|].
   rewrite F_suffixes. destruct (d_file d); try reflexivity; now destruct (smem _ _).
 Qed.
 
@@ -183,14 +195,14 @@ Proof.
   assert (D : dry_merge q c = false).
   { unfold dry_merge. destruct (r_dry q c R) as [H|H]; [now rewrite H|].
     rewrite H. now rewrite !andb_false_r. }
-  rewrite D. rewrite (selected_spec q c R). destruct (spec_selected c); [reflexivity|]. now rewrite norm_for_eq.
+  rewrite D. rewrite ?(eff_proj_spec q c R). rewrite (selected_spec q c R). destruct (spec_selected c); [reflexivity|]. now rewrite norm_for_eq.
 Qed.
 
 Lemma spec_selected_yaml c raw k :
   spec_selected c = LDoc k raw -> (k = KYaml \/ k = KJson \/ k = KNone) ->
-  p_dash (c_proj c) = None /\ code_patterns (c_proj c) = pats raw.
+  p_dash (c_proj c) = None /\ code_patterns (c_proj c) = p_ignore_file (c_proj c) ++ pats raw.
 Proof.
-  destruct c as [[y j py ds] cmd u lang fn ovs ms].
+  destruct c as [[y j py ds ig sd] cmd u lang fn ovs ms].
   unfold spec_selected, spec_discovered, spec_dash, code_patterns.
   cbn [c_proj p_yaml p_json p_pyproject p_dash]. intros H K.
   destruct ds as [[pos suf f]|].
@@ -207,7 +219,7 @@ Lemma spec_selected_kinds c raw k :
   (k = KJson -> p_json (c_proj c) <> Absent) /\ (k = KPy -> p_pyproject (c_proj c) <> Absent)
   /\ (k = KDash -> p_dash (c_proj c) <> None).
 Proof.
-  destruct c as [[y j py ds] cmd u lang fn ovs ms].
+  destruct c as [[y j py ds ig sd] cmd u lang fn ovs ms].
   unfold spec_selected, spec_discovered, spec_dash.
   cbn [c_proj p_yaml p_json p_pyproject p_dash]. intros H.
   destruct ds as [[pos suf f]|].
@@ -219,9 +231,9 @@ Proof.
 Qed.
 
 Lemma repo_patterns_spec q c k raw : relevant_off q c ->
-  spec_selected c = LDoc k raw -> repo_patterns q c = str_list (get "ignore" raw).
+  spec_selected c = LDoc k raw -> repo_patterns q c = p_ignore_file (c_proj c) ++ str_list (get "ignore" raw).
 Proof.
-  intros R H. unfold repo_patterns. rewrite (selected_spec q c R), H.
+  intros R H. unfold repo_patterns. rewrite (selected_spec q c R), H, (eff_proj_spec q c R).
   change (str_list (get "ignore" raw)) with (pats raw).
   destruct (spec_selected_kinds c raw k H) as [Kj [Kp Kd]].
   destruct k.
